@@ -11,6 +11,12 @@ CHECKS = {
  "C02": ("exploration", "bounded-exhaustive enumeration of expression trees (depth 2 quick / 3 thorough), DSL value vs float evaluation of the same tree",
          "All expression trees to the depth bound over the operator alphabet built through Python's own operator dispatch; each compared in converter context and in stock context (t-dt) under two value bindings; a DSL exception counts as rejected.",
          "Float evaluation of the tree is the oracle; values on discontinuities and ill-conditioned mod are skipped; depth > 3 not covered.", "§4 C02"),
+ "C03": ("exploration", "bounded-exhaustive enumeration of XMILE equation ASTs x spellings, transpiled and compared with an XMILE reference evaluator; unsupported inputs must raise",
+         "Depth-2 (thorough: depth-3 arithmetic core) equation ASTs over + - * / MOD ^, unary minus, comparisons, IF/AND/OR/NOT and every numeric built-in with compound arguments, each in 2 (thorough 4) spellings, compiled by compile_xmile and evaluated at two times against XMILE 1.0 semantics; name shapes x reference spellings; unsupported inputs must fail loudly.",
+         "XMILE reference evaluator mc/xmile.py is trusted; a loud rejection is accepted for any equation; MOD on positive operands, ROUND/INT/STEP away from ties; arrays, modules, stateful and stochastic built-ins not covered.", "§4 C03"),
+ "C04": ("exploration", "bounded-exhaustive enumeration of stock/flow graphs x run specs (decimal, binary, reciprocal dt), transpiled model and DSL twin vs Euler reference on an exact rational grid",
+         "1-stock graphs (6 in/out configurations x 8 flow shapes x uniflow/biflow/mixed) and 2-stock chains over start x 8 decimal/binary dt x 5 reciprocal dt: every stock, flow and auxiliary of the transpiled model at every point of util.timerange equals the explicit-Euler reference, and the DSL twin too.",
+         "Non-negative stocks (outflow limiting) and arrays not modelled; reference interpreter trusted.", "§4 C04"),
  "C05": ("exploration", "exhaustive enumeration of a (start, dt, steps) lattice; grid labels compared with == against the Decimal grid on every channel",
          "Every (start, dt, n) of the lattice (n <= 40 quick, <= 400 thorough): timerange, run_scenarios df/dict/json, plot, stepwise session keys and session_results equal the exact decimal grid label by label; a step-counting stock returns i on every arithmetic route to grid point i.",
          "dt and start with finite decimal expansions only; the session is begun with the model's own start and dt.", "§4 C05"),
